@@ -82,6 +82,7 @@ typedef struct {
 } vf_buf;
 /* pad: extra stride in units of 4 bytes; neg: negative stride */
 int  vf_buf_alloc (vf_buf *b, pixman_format_code_t fmt, int w, int h, int pad_words, int neg, int place);
+int  vf_buf_alloc_raw (vf_buf *b, pixman_format_code_t fmt, int bpp, int w, int h, int pad_words, int neg, int place);
 void vf_buf_free (vf_buf *b);
 void vf_buf_fill_random (vf_buf *b, vf_rng *r);
 void vf_buf_snapshot (vf_buf *b);
